@@ -713,6 +713,12 @@ func ruleCmpSpec(c *Ctx) {
 					}
 				}
 			}
+			if shape != nil && valueOfOwnHelper(g.fn, shape.pr) {
+				// the other value is what an unexported helper of the package hands back (code moved into a helper, a
+				// loop-carried local): not a different field or getter put in the operand's place — undecided
+				c.unm(key, shape.pos, "%s: `%s` has the reviewed shape; read through its locals it compares %s (a value computed by a helper of the package), which this rule cannot relate to the reviewed %s — spec: %s", g.fn, shape.text, canonCut(shape.pr, shape.op), g.entries[0].res, specStr)
+				continue
+			}
 			if shape != nil {
 				c.bad(key, shape.pos, "%s: the spec's comparison (%s) is not made; `%s` has its shape but, read through its locals, compares %s where the reviewed code compares %s: another value of the same type was put in an operand's place", g.fn, specStr, shape.text, canonCut(shape.pr, shape.op), g.entries[0].res)
 				continue
@@ -1141,6 +1147,28 @@ func cmpAbsMatch(fn string, entries []cmpSpec, atoms []string, sites []cmpSite, 
 		return true, fmt.Sprintf("the comparison has the reviewed shape but no longer uses %v, which still exist(s) in the function: another value of the same type was put in its place", sw), first
 	}
 	return true, "", first
+}
+
+// valueOfOwnHelper: an operand of p is the result of a call of an unexported function of fn's package.
+func valueOfOwnHelper(fn string, p Poly) bool {
+	pkg := fn
+	if i := strings.Index(fn, "."); i >= 0 {
+		pkg = fn[:i]
+	}
+	for a := range p {
+		i := strings.Index(a, "(")
+		if i <= 0 {
+			continue
+		}
+		name := a[:i]
+		if name == "" || !(name[0] >= 'a' && name[0] <= 'z') || strings.ContainsAny(name, ".[") {
+			continue
+		}
+		if _, ok := cmpDecls[pkg+"."+name]; ok {
+			return true
+		}
+	}
+	return false
 }
 
 // cmpForm: the form of the comparison (as written, or with single-definition locals substituted) that mentions
